@@ -1,5 +1,5 @@
 Require Extraction.
 Require Import ExtrOcamlBasic.
-From LedgerV Require Import Base.Prelude Base.Round Base.ExtractHelpers Model.Amount Model.Expr.
+From LedgerV Require Import Base.Prelude Base.Round Base.ExtractHelpers Model.Amount Model.Expr Model.ExprLex.
 Extraction "model_C15.ml" h_add h_mul h_div h_mod h_opp h_ltb h_eqb h_qred h_qmake h_qnum h_qden
-  parse parse_fuel print relit_tok run amt_digits fixed_text.
+  parse parse_fuel print relit_tok run amt_digits fixed_text parse_text text_tokens lex.
